@@ -141,6 +141,37 @@ def _side(node, self_names, other_names):
     return None
 
 
+def _pads_with_nan(ctx, ci, attr: str) -> bool:
+    """The property/method ``attr`` of the class builds its result with NaN
+    padding (np.nan / a helper whose name mentions nan in its call closure)."""
+    m = ctx.repo.method(ci, attr)
+    if m is None:
+        return False
+    seen, work = set(), [m]
+    while work:
+        f = work.pop()
+        if f.qualname in seen or len(seen) > 12:
+            continue
+        seen.add(f.qualname)
+        for n in own_nodes(f.node):
+            if isinstance(n, ast.Attribute) and n.attr in ("nan", "NaN", "NAN"):
+                return True
+            if isinstance(n, ast.Call):
+                nm = (n.func.attr if isinstance(n.func, ast.Attribute) else n.func.id if isinstance(n.func, ast.Name) else "") or ""
+                if "nan" in nm.lower() and nm not in ("isnan", "nan_to_num", "nanmax", "nanmin", "nansum"):
+                    return True
+                try:
+                    ts, _ = ctx.res.callees(f, n, ci)
+                except Exception:
+                    ts = []
+                work += [t for t in ts if not isinstance(t.node, ast.Lambda)]
+            if isinstance(n, ast.Attribute) and isinstance(n.value, ast.Name) and n.value.id in ("self",):
+                pt = ctx.repo.method(ci, n.attr)
+                if pt is not None and pt.is_property:
+                    work.append(pt)
+    return False
+
+
 def analyse_eq(ctx, fi: FuncInfo) -> EqShape:
     sh = EqShape()
     ci = fi.cls
@@ -149,6 +180,7 @@ def analyse_eq(ctx, fi: FuncInfo) -> EqShape:
         raise AnalysisError(f"{fi.qualname}: unexpected signature")
     self_names, other_names = {params[0]}, {params[1]}
     fields = instance_fields(ctx, ci)
+    helper_stack: list[str] = []
 
     def operand(node, positive=True):
         """Consumes one conjunct of the equality condition."""
@@ -157,16 +189,38 @@ def analyse_eq(ctx, fi: FuncInfo) -> EqShape:
                 for v in node.values:
                     operand(v, positive)
             else:
-                sh.problems.append(
-                    (node, "fields are combined by a disjunction, so a single "
-                     "matching field makes the objects equal")
-                )
+                # one conjunct that is itself a disjunction (`n == 0 or a == b`):
+                # weaker than each of its members, so it covers no field - and
+                # as an extra conjunct it cannot make different objects equal.
+                # It is a problem only when nothing else covers the content
+                # (decided by the field-coverage test).  Its members are still
+                # inspected for comparisons that fail on equal content.
+                sh.weak[f"<disjunction@{getattr(node, 'lineno', 0)}>"] = ast.unparse(node)[:60]
+                for v in node.values:
+                    for c in ast.walk(v):
+                        nan_compare(c)
             return
         if isinstance(node, ast.UnaryOp) and isinstance(node.op, ast.Not):
             operand(node.operand, not positive)
             return
         if isinstance(node, ast.Constant) and node.value is True and positive:
             return
+        # a private predicate of the class on the same pair: self._same_x(other)
+        if (
+            positive and isinstance(node, ast.Call) and isinstance(node.func, ast.Attribute) and isinstance(node.func.value, ast.Name)
+            and node.func.value.id in self_names and len(node.args) == 1 and not node.keywords
+            and isinstance(node.args[0], ast.Name) and node.args[0].id in other_names and ci is not None
+        ):
+            h = ctx.repo.method(ci, node.func.attr)
+            if h is not None and len(h.params) == 2 and h.qualname not in helper_stack:
+                helper_stack.append(h.qualname)
+                self_names.add(h.params[0])
+                other_names.add(h.params[1])
+                try:
+                    walk(body_of(h.node))
+                finally:
+                    helper_stack.pop()
+                return
         if isinstance(node, ast.Compare) and len(node.ops) == 1:
             op = node.ops[0]
             l, r = node.left, node.comparators[0]
@@ -199,6 +253,7 @@ def analyse_eq(ctx, fi: FuncInfo) -> EqShape:
             and ast.unparse(node.func) in ("np.array_equal", "numpy.array_equal", "np.array_equiv")
             and len(node.args) >= 2
         ):
+            nan_compare(node)
             pair(node, node.args[0], node.args[1])
             return
         # all(getattr(self, s) == getattr(o, s) for s in self.__slots__)
@@ -278,6 +333,29 @@ def analyse_eq(ctx, fi: FuncInfo) -> EqShape:
         if projection(node, positive):
             return
         sh.unknown.append(node)
+
+    def nan_compare(node):
+        """np.array_equal(self.v, other.v) (without equal_nan=True) on a view
+        that pads with NaN: NaN != NaN, so two objects with the same content
+        never compare equal once a padded cell exists."""
+        if not (
+            isinstance(node, ast.Call) and ast.unparse(node.func) in ("np.array_equal", "numpy.array_equal", "np.array_equiv")
+            and len(node.args) >= 2
+        ):
+            return
+        if any(k.arg == "equal_nan" and isinstance(k.value, ast.Constant) and k.value.value is True for k in node.keywords):
+            return
+        for a in node.args[:2]:
+            sd = _side(a, self_names, other_names)
+            if sd and ci is not None and _pads_with_nan(ctx, ci, sd[1]):
+                if not any(p[0] is node for p in sh.problems):
+                    sh.problems.append((
+                        node,
+                        f"`{ast.unparse(node)[:70]}` compares `{sd[1]}`, which is padded with NaN where rows are shorter: NaN is not "
+                        "equal to NaN, so two independently built objects with the same content compare unequal as soon as "
+                        "the rows differ in length",
+                    ))
+                return
 
     def projection(node, positive):
         """f(self.x) == f(other.x) with the same f on both sides."""
